@@ -49,6 +49,14 @@ def controls(ctx):
     if not re.search(r"Temporal propert(y|ies) .*violated", r["out"]):
         raise Inconclusive("Lifecycle.tla: defect lookupDiesOnCancel does not break ShutdownCompletes:\n%s" % tail(r["out"], 20))
     done["lookupDiesOnCancel"] = "ShutdownCompletes"
+    # the environment assumption of the liveness property: replies can be written (there is no write deadline in the code)
+    cfg = "MCLC_peer.cfg"
+    with open(os.path.join(ctx.specdir(), cfg), "w") as f:
+        f.write("SPECIFICATION LiveSpec\nCONSTANTS\n  Conns = {1, 2}\n  MaxPkts = 1\n  Defects = {\"peerNeverReads\"}\n  Record = FALSE\nPROPERTY ShutdownCompletes\nCHECK_DEADLOCK FALSE\n")
+    r = ctx.tlc("MC_Lifecycle", cfg=cfg, workers=4, heap="4g", timeout=600)
+    if not re.search(r"Temporal propert(y|ies) .*violated", r["out"]):
+        raise Inconclusive("Lifecycle.tla: a peer that never reads does not break ShutdownCompletes:\n%s" % tail(r["out"], 20))
+    done["peerNeverReads (environment assumption)"] = "ShutdownCompletes"
     return done
 
 
